@@ -47,10 +47,11 @@ struct Snap {
 
 fn obs_def(d: &DatumDefinition<NativeDatumDetails>) -> DefObs {
     let name = d.name().strip_prefix('f').and_then(|x| x.parse().ok()).unwrap_or(u64::MAX);
-    let (s, a, _) = parse_shape(d.details().type_name());
+    // a recorded type name the synthetic resolver never answered (C18) shows as type code u64::MAX
+    let ty = parse_shape_opt(d.details().type_name()).map_or(u64::MAX, |(s, a, _)| ty_code(s as u64, a as u64));
     DefObs {
         name,
-        ty: ty_code(s as u64, a as u64),
+        ty,
         size: d.details().size() as u64,
         align: d.details().type_align() as u64,
         uninit: d.details().allow_uninit(),
@@ -298,6 +299,11 @@ impl Oracle {
     /// C01 + C02(order, alignment) on every variant of a snapshot
     fn layout(&mut self, s: &Snap, at: usize) {
         let at = if at >= 1_000_000 { format!("replay of the final definition into native builder #{}", at - 1_000_000) } else { format!("step {}", at) };
+        for (i, d) in s.defs.iter().enumerate() {
+            if d.ty == u64::MAX {
+                self.fail("C18", format!("{}: datum {} records a type name that is not the one the resolver answered (size {} align {})", at, i, d.size, d.align));
+            }
+        }
         for (vi, v) in s.variants.iter().enumerate() {
             let ds: Vec<&DefObs> = v.iter().filter_map(|&i| s.defs.get(i as usize)).collect();
             if ds.len() != v.len() {
@@ -392,6 +398,56 @@ struct HStats {
     gap_fill: bool,
 }
 
+/// the set-level spec of C12 (current data = predecessor - removals + additions, names unique among the current data,
+/// identifiers never reused), maintained from the requests and the responses only; used for both builders
+#[allow(clippy::too_many_arguments)]
+fn spec_step(r: &Req, resp: &[u64], snap: &Snap, cur: &[u64], spec_cur: &mut Vec<u64>, ever: &mut BTreeSet<u64>, last_snap: &Snap, st: &mut HStats, oracle: &mut Oracle, k: usize) {
+    // maintain the spec from requests + responses, and check responses against it
+    match (r, resp[0]) {
+        (Req::Add { name, size, .. }, 0) => {
+            st.adds += 1;
+            if *size == 0 {
+                st.zst += 1;
+            }
+            let i = resp[1];
+            if !ever.insert(i) {
+                oracle.fail("C12", format!("step {}: datum id {} was handed out twice", k, i));
+            }
+            if spec_cur.iter().any(|&j| snap.defs.get(j as usize).map_or(false, |d| d.name == *name as u64)) {
+                oracle.fail("C12", format!("step {}: add of f{} accepted although a current datum has that name", k, name));
+            }
+            spec_cur.push(i);
+        }
+        (Req::Add { name, .. }, 3) => {
+            if !spec_cur.iter().any(|&j| snap.defs.get(j as usize).map_or(false, |d| d.name == *name as u64)) {
+                oracle.fail("C12", format!("step {}: add of fresh name f{} rejected", k, name));
+            }
+        }
+        (Req::Remove(i), 1) => {
+            if !spec_cur.contains(i) {
+                oracle.fail("C12", format!("step {}: removal of datum {} accepted although it is not in the current variant", k, i));
+            }
+            if !last_snap.variants.last().map_or(false, |v| v.contains(i)) {
+                st.removed_pending = true;
+            }
+            spec_cur.retain(|j| j != i);
+        }
+        (Req::Remove(i), 3) => {
+            if spec_cur.contains(i) {
+                oracle.fail("C12", format!("step {}: removal of current datum {} rejected", k, i));
+            }
+        }
+        _ => {}
+    }
+    {
+        let a: BTreeSet<u64> = cur.iter().cloned().collect();
+        let w: BTreeSet<u64> = spec_cur.iter().cloned().collect();
+        if a != w || a.len() != cur.len() {
+            oracle.fail("C12", format!("step {}: current data {:?} differ from predecessor - removals + additions {:?}", k, cur, spec_cur));
+        }
+    }
+}
+
 /// a history whose closes use strategies 4 / 5 is a history of GenericRecordDefinitionBuilder (its own two
 /// strategies, no offsets): same request layer, same observations, `build` as the only final observation
 fn is_generic(h: &[Req]) -> bool {
@@ -405,6 +461,9 @@ fn run_history_generic(h: &[Req]) -> RunOut {
     let mut obs = Vec::new();
     let mut oracle = Oracle::default();
     let mut st = HStats::default();
+    let mut last_snap = Snap::default();
+    let mut spec_cur: Vec<u64> = Vec::new();
+    let mut ever: BTreeSet<u64> = BTreeSet::new();
     let mut executed = 0;
     let mut panicked = false;
     for (k, r) in h.iter().enumerate() {
@@ -450,6 +509,21 @@ fn run_history_generic(h: &[Req]) -> RunOut {
             Req::Close(_) => {
                 enc_snapshot(&snap, &mut o);
                 st.variants = snap.variants.len();
+                // C12 on the generic builder: names, earlier variants untouched, the closed variant is the current data
+                oracle.names(&snap, k);
+                oracle.stable(&last_snap, &snap, k);
+                let lastv: BTreeSet<u64> = snap.variants.last().cloned().unwrap_or_default().into_iter().collect();
+                let want: BTreeSet<u64> = spec_cur.iter().cloned().collect();
+                if lastv != want || snap.variants.last().map_or(0, |v| v.len()) != want.len() {
+                    oracle.fail("C12", format!("step {}: closed variant {:?} of the generic builder is not predecessor - removals + additions {:?}", k, snap.variants.last(), want));
+                }
+                if resp[0] == 2 && resp[1] as usize != snap.variants.len() - 1 {
+                    oracle.fail("C12", format!("step {}: close returned variant {} but {} variants exist (generic builder)", k, resp[1], snap.variants.len()));
+                }
+                if snap.variants.len() > last_snap.variants.len() + 1 {
+                    oracle.fail("C12", format!("step {}: one close created several variants (generic builder)", k));
+                }
+                last_snap = snap.clone();
             }
             _ => {
                 o.push(snap.defs.len() as u64);
@@ -460,8 +534,12 @@ fn run_history_generic(h: &[Req]) -> RunOut {
                 if resp[0] == 3 {
                     st.errs += 1;
                 }
+                if resp[0] == 0 || resp[0] == 1 {
+                    oracle.stable(&before, &snap, k);
+                }
             }
         }
+        spec_step(r, &resp, &snap, &cur, &mut spec_cur, &mut ever, &last_snap, &mut st, &mut oracle, k);
         obs.push(o);
     }
     if !panicked {
@@ -558,50 +636,7 @@ fn run_history(h: &[Req]) -> RunOut {
                 }
             }
         }
-        // maintain the spec from requests + responses, and check responses against it
-        match (r, resp[0]) {
-            (Req::Add { name, size, .. }, 0) => {
-                st.adds += 1;
-                if *size == 0 {
-                    st.zst += 1;
-                }
-                let i = resp[1];
-                if !ever.insert(i) {
-                    oracle.fail("C12", format!("step {}: datum id {} was handed out twice", k, i));
-                }
-                if spec_cur.iter().any(|&j| snap.defs.get(j as usize).map_or(false, |d| d.name == *name as u64)) {
-                    oracle.fail("C12", format!("step {}: add of f{} accepted although a current datum has that name", k, name));
-                }
-                spec_cur.push(i);
-            }
-            (Req::Add { name, .. }, 3) => {
-                if !spec_cur.iter().any(|&j| snap.defs.get(j as usize).map_or(false, |d| d.name == *name as u64)) {
-                    oracle.fail("C12", format!("step {}: add of fresh name f{} rejected", k, name));
-                }
-            }
-            (Req::Remove(i), 1) => {
-                if !spec_cur.contains(i) {
-                    oracle.fail("C12", format!("step {}: removal of datum {} accepted although it is not in the current variant", k, i));
-                }
-                if !last_snap.variants.last().map_or(false, |v| v.contains(i)) {
-                    st.removed_pending = true;
-                }
-                spec_cur.retain(|j| j != i);
-            }
-            (Req::Remove(i), 3) => {
-                if spec_cur.contains(i) {
-                    oracle.fail("C12", format!("step {}: removal of current datum {} rejected", k, i));
-                }
-            }
-            _ => {}
-        }
-        {
-            let a: BTreeSet<u64> = cur.iter().cloned().collect();
-            let w: BTreeSet<u64> = spec_cur.iter().cloned().collect();
-            if a != w || a.len() != cur.len() {
-                oracle.fail("C12", format!("step {}: current data {:?} differ from predecessor - removals + additions {:?}", k, cur, spec_cur));
-            }
-        }
+        spec_step(r, &resp, &snap, &cur, &mut spec_cur, &mut ever, &last_snap, &mut st, &mut oracle, k);
         obs.push(o);
     }
     st.variants = last_snap.variants.len();
@@ -949,8 +984,22 @@ fn json_str(s: &str) -> String {
     serde_json::to_string(s).unwrap()
 }
 
+static LAST_PANIC: std::sync::Mutex<String> = std::sync::Mutex::new(String::new());
+
 fn main() {
-    std::panic::set_hook(Box::new(|_| {}));
+    // panics of the code under test are caught where they are expected; one that escapes is reported with its message
+    std::panic::set_hook(Box::new(|info| {
+        if let Ok(mut g) = LAST_PANIC.lock() {
+            *g = info.to_string();
+        }
+    }));
+    if catch_unwind(main_inner).is_err() {
+        eprintln!("bdiff: uncaught panic: {}", LAST_PANIC.lock().map(|g| g.clone()).unwrap_or_default());
+        std::process::exit(101);
+    }
+}
+
+fn main_inner() {
     let args: Vec<String> = std::env::args().collect();
     let mode = arg_value(&args, "--mode").unwrap_or_else(|| "random".into());
     let seed: u64 = arg_value(&args, "--seed").map_or(1, |s| s.parse().unwrap());
